@@ -54,6 +54,20 @@ def par_dist(par, dtype, npts, width, nsigmas, value):
     return np.asarray(x, float), np.asarray(w, float)
 
 
+def py_valid(info, point):
+    """the model's `valid` clause evaluated in Python (None if the model has none) - independent of the kernel"""
+    expr = getattr(info, "valid", None)
+    if not expr:
+        return None
+    pyexpr = expr.replace("&&", " and ").replace("||", " or ")
+    import re
+    pyexpr = re.sub(r"!(?!=)", " not ", pyexpr)
+    env = {k: v for k, v in point.items() if isinstance(v, (int, float))}
+    for p in info.parameters.call_parameters:
+        env.setdefault(p.name, p.default)
+    return bool(eval(pyexpr, {"__builtins__": {}}, env))  # noqa - expression comes from the model definition
+
+
 def weighted_mean(kernel, base, disp, cutoff=0.0, mode=0, point_hook=None):
     """
     base : monodisperse parameter values (scale/background may be present)
@@ -70,7 +84,7 @@ def weighted_mean(kernel, base, disp, cutoff=0.0, mode=0, point_hook=None):
     aF2 = np.zeros(nq)
     have_F1 = False
     sw = sform = sshell = sreff = 0.0
-    npoints = nqual = ncut = ninvalid = 0
+    npoints = nqual = ncut = ninvalid = nverdict = 0
     point = dict(base)
     point["scale"], point["background"] = 1.0, 0.0
     for combo in itertools.product(*grids):
@@ -85,7 +99,10 @@ def weighted_mean(kernel, base, disp, cutoff=0.0, mode=0, point_hook=None):
         p = raw_point(kernel, point, mode)
         if point_hook is not None:
             point_hook(point, p)
-        if p["w"] == 0.0:
+        verdict = py_valid(kernel.info, point)
+        if verdict is not None and verdict != (p["w"] != 0.0):
+            nverdict += 1
+        if (verdict is False) or (verdict is None and p["w"] == 0.0):
             ninvalid += 1
             continue
         nqual += 1
@@ -98,7 +115,8 @@ def weighted_mean(kernel, base, disp, cutoff=0.0, mode=0, point_hook=None):
         sform += w * p["form"]
         sshell += w * p["shell"]
         sreff += w * p["reff"]
-    out = {"npoints": npoints, "nqual": nqual, "ncut": ncut, "ninvalid": ninvalid, "sw": sw}
+    out = {"npoints": npoints, "nqual": nqual, "ncut": ncut, "ninvalid": ninvalid, "sw": sw,
+           "verdict_mismatch": nverdict}
     if nqual == 0 or sw == 0:
         out.update(I=np.full(nq, background), F2=np.zeros(nq), F1=np.zeros(nq) if have_F1 else None,
                    reff=0.0, vshell=1.0, vratio=None, vform=0.0, mag=np.zeros(nq))
